@@ -28,10 +28,12 @@ ANP = None
 class ZStub:
     """metadata of a stored source array (stands for a zarr.Array that is only ever described, never read)"""
 
-    def __init__(self, shape, chunks, dtype):
+    def __init__(self, shape, chunks, dtype, shards=None):
         self.shape = tuple(shape)
         self.chunks = tuple(chunks)
         self.dtype = np.dtype(dtype)
+        self.shards = shards
+        self.ndim = len(self.shape)
 
     @property
     def nbytes(self):
@@ -129,6 +131,13 @@ def install():
         for f in ("numpy_array_to_backend_array", "backend_array_to_numpy_array"):
             if f in d:
                 d[f] = _ident
+        if "is_storage_array" in d and not name.endswith("storage.store"):
+            real_isa = d["is_storage_array"]
+            if not getattr(real_isa, "_verif", False):
+                def isa(obj, _real=real_isa):
+                    return isinstance(obj, ZStub) or _real(obj)
+                isa._verif = True
+                d["is_storage_array"] = isa
     _INSTALLED = True
 
 
@@ -285,10 +294,23 @@ class Evaluator:
         self.cache[ck] = out
         return out
 
+    def task_list(self, array_name):
+        """explicit task list of the producing op (region stores), or None for the full block grid"""
+        opname, _ = self.producer[array_name]
+        m = self.nodes[opname]["pipeline"].mappable
+        from cubed.primitive.blockwise import ChunkKeys
+
+        if isinstance(m, ChunkKeys):
+            return None
+        return [tuple(sx.conc(c) for c in t) for t in m]
+
     def block_of(self, array_name, gidx):
         """(result, region, local index) for the element gidx of a produced array"""
         chunks = self.write_chunks(array_name)
         coords = tuple(sx.conc(g // c) for g, c in zip(gidx, chunks))
+        tl = self.task_list(array_name)
+        if tl is not None and coords not in tl:
+            return None, None, None
         res = self.run_task(array_name, coords)
         r, region = res[self.producer[array_name][1]]
         local = tuple(g - s.start for g, s in zip(gidx, region))
@@ -299,6 +321,8 @@ class Evaluator:
         if self.is_leaf(array_name):
             return ("elem", array_name, gidx)
         r, region, local = self.block_of(array_name, gidx)
+        if r is None:
+            return ("unwritten",)
         if isinstance(r, dict):
             if fieldname is None:
                 return ("struct", tuple(sorted((k, v.at(local)) for k, v in r.items())))
